@@ -478,9 +478,10 @@ fn encrypt(w: &mut World, op: &Value) -> R<Value> {
         return Ok(json!({"skipped":"message length outside 1..=255 (outside the property's domain)"}));
     }
     w.bump("call.sm9.encrypt");
+    let msg_p = crate::place::Placed::new(&msg, w.next_place());
     let (out, log) = run_lib(&script, || {
         let m = Sm9EncMasterKey { ke: [0, 0, 0, 0], ppube: lib_point(&ppube)? };
-        Some(m.encrypt(&id, &msg))
+        Some(m.encrypt(&id, msg_p.as_slice()))
     });
     let (class, ct) = classify(out);
     hang_check(w, "sm9.encrypt", &class, &log, case);
@@ -556,9 +557,10 @@ fn decrypt(w: &mut World, op: &Value) -> R<Value> {
         return Ok(json!({"class": if r.is_ok() {"Ok"} else {"Err"}}));
     }
     w.bump("call.sm9.decrypt");
+    let ct_p = crate::place::Placed::new(&ct, w.next_place());
     let out = run_lib_norng(|| {
         let k = Sm9EncKey { ppube: lib_point(&ppube)?, de: lib_twist(&dew)? };
-        k.decrypt(&id, &ct).ok()
+        k.decrypt(&id, ct_p.as_slice()).ok()
     });
     let (class, m) = classify(out);
     let input_class = if ct.len() < 97 {
